@@ -215,6 +215,15 @@ def event_system(roles, flag0=0):
             for k, ins in enumerate(prog):
                 if ins[0] == 'sem_acq' and ins[1] == 'F':
                     prog[k] = tuple(ins) + ({'sawset%d' % i: (lambda view: view['gh']['setdone'])},)
+        if role == 'wait':
+            # whether a set() had already raised the flag when this thread made its last visible step (E8)
+            ghosts['lastset%d' % i] = 0
+            from vlib.bmc import VISIBLE
+            for k, ins in enumerate(prog):
+                if ins[0] in VISIBLE:
+                    ann = dict(ins[-1]) if isinstance(ins[-1], dict) else {}
+                    ann['lastset%d' % i] = (lambda view: view['gh']['setdone'])
+                    prog[k] = (tuple(ins[:-1]) if isinstance(ins[-1], dict) else tuple(ins)) + (ann,)
         info['xpcs'][i] = [k for k, ins in enumerate(prog) if ins[0] == 'sem_acq' and ins[1] == 'X']
         threads.append(prog)
     sysm = System(threads, sems={'S': 0, 'W': 0, 'X': 0, 'F': flag0}, locks={'L': 0}, ghosts=ghosts, syms=syms)
@@ -282,7 +291,18 @@ def event_properties(sysm, info):
             bads.append(fin['sem']['F'] != BVV(0))
         return z3.Or(*bads)
 
-    return {'E1-flag-is-0-or-1': E1, 'E5-no-assertion-of-the-real-code-fails': E5, 'E6-wait-result-matches-flag': E6, 'E7-no-deadlock-flag-final': E7}
+    def E8(states):
+        # "returns True exactly when the event was set before its deadline": without clear(), a wait (timed or not) whose last step
+        # came after a set() had raised the flag returns True - a time-out of the inner condition wait does not decide the result
+        fin = states[-1]
+        bads = []
+        for i, r in enumerate(roles):
+            if r == 'wait' and not has_clear:
+                bads.append(z3.And(sysm.ended(fin, i), fin['loc'][i]['$ret'] == BVV(0), fin['gh']['lastset%d' % i] == BVV(1)))
+        return z3.Or(*bads) if bads else z3.BoolVal(False)
+
+    return {'E1-flag-is-0-or-1': E1, 'E5-no-assertion-of-the-real-code-fails': E5, 'E6-wait-result-matches-flag': E6, 'E7-no-deadlock-flag-final': E7,
+            'E8-wait-false-only-if-not-set-by-its-last-step': E8}
 
 
 def event_bound(roles):
@@ -809,3 +829,93 @@ def v_conformance(tier):
         notes.append('%s: %d scheduled steps conformed' % (build, len([s for s in w['schedule'] if s['thread'] != 15])))
     return {'status': 'confirmed', 'cases': done, 'traces_validated': done, 'nontrivial_witness': True, 'detail': '; '.join(notes),
             'solver_queries': bmc.STATS['queries'], 'solver_time_s': round(bmc.STATS['time'], 2)}
+
+
+# ---------------------------------------------------------------------------
+# "across processes": a primitive handed to a spawned child is rebuilt there from its pickled state; the rebuilt object must be
+# the SAME primitive (same kernel semaphores, same roles inside a Condition), with working acquire/release
+
+def _transfer(kind, want):
+    import billiard
+    import billiard.context as bctx
+    import billiard.synchronize as bs
+    from harness.hbase import fail
+    ctx = billiard.get_context('spawn')
+    if kind == 0:
+        obj = ctx.Lock()
+    elif kind == 1:
+        obj = ctx.RLock()
+    elif kind == 2:
+        obj = ctx.Semaphore(2)
+    elif kind == 3:
+        obj = ctx.BoundedSemaphore(2)
+    elif kind == 4:
+        obj = ctx.Condition()
+    else:
+        obj = ctx.Event()
+
+    def rebuild(o):
+        # what pickling for a spawned child does: __getstate__ under a spawning popen, __setstate__ on a fresh object (nested
+        # primitives of a Condition / Event travel the same way)
+        new = type(o).__new__(type(o))
+        if isinstance(o, bs.SemLock):
+            new.__setstate__(o.__getstate__())
+        elif isinstance(o, bs.Condition):
+            st = o.__getstate__()
+            new.__setstate__(tuple(rebuild(x) for x in st))
+        else:
+            new.__dict__.update({k: (rebuild(v) if isinstance(v, (bs.SemLock, bs.Condition)) else v) for k, v in o.__dict__.items()})
+        return new
+    saved = bctx.get_spawning_popen()
+    bctx.set_spawning_popen(object())
+    try:
+        child = rebuild(obj)
+    finally:
+        bctx.set_spawning_popen(saved)
+    a, b = _semlocks(obj), _semlocks(child)
+    if len(a) != len(b):
+        return fail('C17:transfer:structure-differs')
+    for x, y in zip(a, b):
+        # the same kernel semaphore in the same role: taking it through the child's copy is seen through the parent's
+        if (x._semlock.kind, x._semlock.maxvalue) != (y._semlock.kind, y._semlock.maxvalue):
+            return fail('C17:transfer:kind-or-bound-differs')
+        before = x._semlock._get_value()
+        if before > 0:
+            if not y.acquire(False):
+                return fail('C17:transfer:rebuilt-primitive-cannot-be-acquired')
+            if x._semlock._get_value() != before - 1:
+                return fail('C17:transfer:rebuilt-primitive-is-not-the-same-semaphore')
+            y.release()
+        else:
+            y.release()
+            if x._semlock._get_value() != before + 1:
+                return fail('C17:transfer:rebuilt-primitive-is-not-the-same-semaphore')
+            if not y.acquire(False):
+                return fail('C17:transfer:rebuilt-primitive-cannot-be-acquired')
+        if x._semlock._get_value() != before:
+            return fail('C17:transfer:value-not-restored')
+    if want:
+        return False
+    return True
+
+
+def h_transfer(kind: int) -> bool:
+    """
+    pre: 0 <= kind <= 5
+    post: _
+    """
+    from harness.hbase import pick, untraced
+    kind = pick(kind, 0, 5)
+    with untraced():
+        return _transfer(kind, False)
+
+
+def h_transfer_twin(kind: int) -> bool:
+    """
+    pre: 0 <= kind <= 5
+    post: _
+    """
+    from harness.hbase import pick, untraced
+    kind = pick(kind, 0, 5)
+    with untraced():
+        return _transfer(kind, True)
